@@ -25,6 +25,8 @@ NOTES = """Interpretation choices (read generously, see BUILDING.md rule 1):
   RowSpan x ColSpan of the model cell at the root's place equal the region's size or that size clipped to the extent of
   the grid / table (both accepted); regions whose top-left cell lies outside the grid / the trimmed table are not
   asserted. Tables() is read as header row + data rows with the same free translation as the Markdown table.
+* shared strings: the table may hold items nobody references, empty items <si/> (CT_Rst has no required child; a cell
+  pointing at one shows nothing) and several rich-text items in any order relative to the cells.
 * ODT/DOCX/PPTX table spans are not part of C17's statement (spreadsheets only) and are not checked here.
 * generated files are valid ECMA-376: <row> without r (optional attribute) but cells with full
   references; rows and cells in any order (the schema does not order them); inline strings with
@@ -38,7 +40,8 @@ EVIDENCE = dict(
          "(2) every reachable state of Sheet.tla (one state = one workbook file: cells in file order, merges, <= 2 sheets, "
          "10 cell kinds, offsets A1 / Y8, row-r and shared-string layouts), every SET of populated cells of a 3x3 window x every rectangle "
          "as merged region (roots in first/interior/last populated row and column, regions beyond the extent, stale values in covered cells; "
-         "thorough: ordered pairs of regions and a 3x4 window) plus -simulate workbooks in a 4x4 window up to ZZ200 "
+         "thorough: ordered pairs of regions and a 3x4 window), every order of up to 4 shared-string items (several rich-text items, "
+         "plain items, empty <si/> items, unused items) plus -simulate workbooks in a 4x4 window up to ZZ200 "
          "is rendered by an independent writer and read through xlsx.Open (cells, merge flags, Tables()), Text(), ToMarkdown(), Document() "
          "(cells and spans); TLC also refutes the reader that ignores regions anchored on the last populated row/column; "
          "(3) random larger workbooks recorded from the real code are validated by SheetTrace.tla. Non-trivial = workbook with "
@@ -136,8 +139,12 @@ def run(ctx):
     if not q:
         tall = ctx.tlc("SheetMC", "Sheet_gen_merge_tall.cfg", workers=8, collect=True, count=False, timeout=3000)
         mg["cases"] += tall["cases"]
-    if not mg["cases"]:
-        raise vlib.MachineryError("TLC emitted no merge-position cases")
+    # shared string table: 1..4 cells over rich / plain / empty-item references x every order of the items x paddings
+    sst = ctx.tlc("SheetMC", "Sheet_gen_sst.cfg", workers=8, collect=True, count=False, timeout=3000)
+    ctx.extra["workbooks_shared_strings"] = len(sst["cases"])
+    mg["cases"] += sst["cases"]
+    if not mg["cases"] or not sst["cases"]:
+        raise vlib.MachineryError("TLC emitted no merge-position / shared-string cases")
     ctx.extra["workbooks_merge_positions"] = len(mg["cases"])
     seen, cases = set(), []
     for c in gen["cases"] + mg["cases"] + sim["cases"]:
